@@ -63,7 +63,7 @@ vars == <<prog, layout, nrw, phase>>
 
 Units == {"\t", "  ", "    ", "        "}
 Canon == [unit |-> "\t", blank |-> {}, cline |-> {}, tcomment |-> {}, trail |-> {}, tight |-> FALSE, contind |-> 1, bslash |-> {},
-          blankfill |-> "", cind |-> " ", eol |-> "\n", final |-> TRUE]
+          blankfill |-> "", cind |-> " ", eol |-> "\n", final |-> TRUE, cbare |-> FALSE]
 \* what a blank line may carry, where a comment line may start (neither is a multiple of any indent unit in general)
 Fills == {"   ", "\t\t\t"}
 CommentIndents == {"", "\t\t\t", "          "}
@@ -96,6 +96,7 @@ Rewrite(f, v) ==
                  [] f = "cind" -> [layout EXCEPT !.cind = v]
                  [] f = "eol" -> [layout EXCEPT !.eol = v]
                  [] f = "final" -> [layout EXCEPT !.final = ~@]
+                 [] f = "cbare" -> [layout EXCEPT !.cbare = ~@]
   /\ layout' # layout
   /\ UNCHANGED <<prog, phase>>
 
@@ -112,6 +113,8 @@ Next ==
   \/ layout.blank # {} /\ \E w \in Fills : Rewrite("blankfill", w)
   \/ layout.cline # {} /\ \E w \in CommentIndents : Rewrite("cind", w)
   \/ Rewrite("eol", "\r\n")
+  \* a comment may be empty: the bare number sign, on a line of its own or after code
+  \/ (layout.cline # {} \/ layout.tcomment # {}) /\ Rewrite("cbare", 0)
   \/ Rewrite("final", 0)
 
 -----------------------------------------------------------------------------
@@ -160,12 +163,12 @@ JoinLex(xs, i, tight) ==
 LineText(l, i, lay) ==
   LET b == Bodies[l.body]
       pre == (IF i \in lay.blank THEN lay.blankfill \o lay.eol ELSE "")
-             \o (IF i \in lay.cline THEN lay.cind \o "# note " \o ToString(i) \o lay.eol ELSE "")
+             \o (IF i \in lay.cline THEN lay.cind \o (IF lay.cbare THEN "#" ELSE "# note " \o ToString(i)) \o lay.eol ELSE "")
       first == IF i \in lay.bslash /\ b.rest = <<>> /\ Len(b.lex) > 2 /\ b.lex[1][1] = "name" /\ b.lex[2][3] = "b" /\ b.lex[2][2] \notin {"-="}
                THEN b.lex[1][2] \o " \\\n  " \o JoinLex(Tail(b.lex), 1, lay.tight)
                ELSE JoinLex(b.lex, 1, lay.tight)
       second == IF b.rest = <<>> THEN "" ELSE lay.eol \o Indent(lay.contind, "  ") \o JoinLex(b.rest, 1, lay.tight)
-      post == (IF i \in lay.tcomment THEN "  # c" \o ToString(i) ELSE "") \o (IF i \in lay.trail THEN "  " ELSE "")
+      post == (IF i \in lay.tcomment THEN (IF lay.cbare THEN "  #" ELSE "  # c" \o ToString(i)) ELSE "") \o (IF i \in lay.trail THEN "  " ELSE "")
   IN pre \o Indent(l.ind, lay.unit) \o first \o second \o post
 
 RECURSIVE TextFrom(_, _, _)
